@@ -75,13 +75,62 @@ Proof.
   - destruct (H1 x Hx) as [y [Hy Rxy]]. exists (far_side y). split; [apply in_map; exact Hy|apply R; exact Rxy].
 Qed.
 
+(** unrooting: the two root branches (one bipartition) become one branch *)
+Lemma unroot_same_bips : forall X t,
+    wf t = true -> rooted t = true -> NoDup (leaves t) -> incl X (leaves t) ->
+    same_bips X t (unroot t).
+Proof.
+  intros X t W R N I.
+  destruct (unroot_splits t W R) as (e1 & N1 & e2 & N2 & e3 & far & K & Hfar & _ & _ & B & P & _).
+  assert (L : leaves t = leaves N1 ++ leaves N2).
+  { destruct t as [n c sl]. unfold kids in K. cbn [uslots] in K.
+    rewrite leaves_root by (rewrite K; discriminate).
+    rewrite flat_map_kids, K. simpl. rewrite app_nil_r. reflexivity. }
+  assert (C12 : same_split X (leaves N1) (leaves N2) = true).
+  { apply same_split_spec. right. intros x Hx. apply (perm_app_compl _ _ (leaves t) x N).
+    - rewrite L. reflexivity.
+    - apply I. exact Hx. }
+  assert (Cfar1 : same_split X (leaves N1) (leaves far) = true)
+    by (destruct Hfar as [->| ->]; [apply same_split_refl|exact C12]).
+  assert (Cfar2 : same_split X (leaves N2) (leaves far) = true)
+    by (destruct Hfar as [->| ->]; [apply same_split_sym; exact C12|apply same_split_refl]).
+  unfold same_bips. rewrite !clades_bsplits, B. split.
+  - intros A HA. apply in_map_iff in HA. destruct HA as [x [<- Hx]].
+    assert (Hcase : x = (e1, leaves N1, isleaf N1) \/ x = (e2, leaves N2, isleaf N2) \/
+                    In x (bsplits N1 ++ bsplits N2)).
+    { destruct Hx as [<-|Hx]; [left; reflexivity|]. apply in_app_or in Hx.
+      destruct Hx as [Hx|[<-|Hx]]; [right; right; apply in_or_app; left; exact Hx|right; left; reflexivity|
+                                    right; right; apply in_or_app; right; exact Hx]. }
+    destruct Hcase as [->|[->|Hx']].
+    + exists (leaves far). split; [|exact Cfar1].
+      apply in_map_iff. exists (e3, leaves far, isleaf far). split; [reflexivity|].
+      eapply Permutation_in; [apply Permutation_sym; exact P|left; reflexivity].
+    + exists (leaves far). split; [|exact Cfar2].
+      apply in_map_iff. exists (e3, leaves far, isleaf far). split; [reflexivity|].
+      eapply Permutation_in; [apply Permutation_sym; exact P|left; reflexivity].
+    + exists (far_side x). split; [|apply same_split_refl].
+      apply in_map. eapply Permutation_in; [apply Permutation_sym; exact P|right; exact Hx'].
+  - intros A HA. apply in_map_iff in HA. destruct HA as [x [<- Hx]].
+    apply (Permutation_in _ P) in Hx. destruct Hx as [<-|Hx].
+    + exists (leaves far). split; [|apply same_split_refl]. unfold far_side. cbn [fst snd].
+      destruct Hfar as [->| ->].
+      * apply in_map_iff. exists (e1, leaves N1, isleaf N1). split; [reflexivity|left; reflexivity].
+      * apply in_map_iff. exists (e2, leaves N2, isleaf N2). split; [reflexivity|].
+        right. apply in_or_app. right. left. reflexivity.
+    + exists (far_side x). split; [|apply same_split_refl]. apply in_map. right.
+      apply in_app_or in Hx. apply in_or_app. destruct Hx as [Hx|Hx]; [left; exact Hx|right; right; exact Hx].
+Qed.
+
 (** * the operations *)
 (** [t'] is [t] re-rooted, or [t] with the children of its nodes in another order (Reroot,
-    RotateInternalNodes, SortNeighborsByTips, any [tperm]), or a succession of such steps *)
+    RotateInternalNodes, SortNeighborsByTips, any [tperm]), or a rooted [t] unrooted (UnRoot), or
+    a succession of such steps *)
 Inductive rearranged : utree -> utree -> Prop :=
 | Rr_refl : forall t, rearranged t t
 | Rr_reroot : forall t i t', reroot t i = Ok t' -> rearranged t t'
 | Rr_order : forall t t', tperm t t' -> rearranged t t'
+| Rr_unroot : forall t, rooted t = true -> root_has_inner_child t = true -> no_single t = true ->
+                        rearranged t (unroot t)
 | Rr_trans : forall t1 t2 t3, rearranged t1 t2 -> rearranged t2 t3 -> rearranged t1 t3.
 
 Lemma good_perm_leaves : forall t t',
@@ -95,7 +144,7 @@ Theorem rearranged_good : forall t t',
     rearranged t t' -> good t ->
     good t' /\ Permutation (leaves t') (leaves t) /\ forall X, incl X (leaves t) -> same_bips X t t'.
 Proof.
-  intros t t' R. induction R as [t|t i t' H|t t' H|t1 t2 t3 R1 IH1 R2 IH2]; intros G.
+  intros t t' R. induction R as [t|t i t' H|t t' H|t Hr Hi Hs|t1 t2 t3 R1 IH1 R2 IH2]; intros G.
   - split; [exact G|]. split; [reflexivity|]. intros X _. apply same_bips_refl.
   - destruct G as [W [D N]].
     destruct (reroot_all t i t' W D H) as [W' [D' [P [_ [_ [S _]]]]]].
@@ -105,6 +154,10 @@ Proof.
     destruct (tperm_all t t' H) as [W' [D' [P [_ [_ [_ [S _]]]]]]].
     split; [eapply good_perm_leaves; try eassumption; [apply W'; exact W|lia|repeat split; assumption]|].
     split; [exact P|]. intros X _. apply bs_same_same_bips. exact S.
+  - destruct G as [W [D N]].
+    destruct (unroot_all t W Hr Hi) as [W' [P [_ [_ [_ [_ D']]]]]].
+    split; [eapply good_perm_leaves; try eassumption; [specialize (D' Hs); lia|repeat split; assumption]|].
+    split; [exact P|]. intros X I. apply unroot_same_bips; assumption.
   - destruct (IH1 G) as [G2 [P2 B2]]. destruct (IH2 G2) as [G3 [P3 B3]].
     split; [exact G3|]. split; [etransitivity; eassumption|].
     intros X I. eapply same_bips_trans; [apply B2; exact I|]. apply B3.
